@@ -747,3 +747,114 @@ def passphrase_of(n, salt=0):
 
 
 PW_NONASCII = ['pässwörd', 'ключ-пароль-é', '鍵' * 31]
+
+
+# --------------------------------------------------------------------------
+# foreign writer layouts (text formats as other implementations write them)
+# --------------------------------------------------------------------------
+
+LAYOUT_COMMENT = (b'layout comment: 1024-bit key, user@host.example, made for '
+                  b'the wrapped-header test; a second clause keeps it going '
+                  b'well past two 72-byte lines, and a third one (with "quotes"'
+                  b' inside) makes sure four physical lines are needed. END')
+LAYOUT_SUBJECT = b'subject-of-the-key@host.example with some more words in it'
+LAYOUT_PRIVATE = b'private header value, also long enough to be wrapped twice!!'
+
+
+def _chunks(value, n, first_room):
+    """Split value into n non-empty pieces (the first at most first_room
+    bytes, the others at most 71) - the physical lines of a folded header."""
+    if n == 1:
+        return [value]
+    size = max(1, min(71, (len(value) + n - 1) // n))
+    first = min(first_room, size)
+    out = [value[:first]]
+    rest = value[first:]
+    for i in range(n - 1):
+        if i == n - 2:
+            out.append(rest)
+        else:
+            out.append(rest[:size])
+            rest = rest[size:]
+    return [c for c in out if c] if all(out) else None
+
+
+def rfc4716_layout(blob, row, comment=LAYOUT_COMMENT):
+    """An RFC 4716 file for the public key / certificate blob.
+    row: hdrs (sequence of 'C' | 'S' | 'X'), nl (physical lines of the
+    Comment header), onl (of the other headers), quoted, eol, width, trailws,
+    finalnl, blank.  -> (bytes, expected comment or None)"""
+    eol = b'\r\n' if row['eol'] == 'crlf' else b'\n'
+    tws = b' \t' if row['trailws'] else b''
+    lines = [b'---- BEGIN SSH2 PUBLIC KEY ----']
+    expect = None
+    for h in row['hdrs']:
+        tag, value, n = {'C': (b'Comment', comment, row['nl']),
+                         'S': (b'Subject', LAYOUT_SUBJECT, row['onl']),
+                         'X': (b'x-verif-private', LAYOUT_PRIVATE,
+                               row['onl'])}[h]
+        if h == 'C':
+            expect = value
+            if row['quoted']:
+                value = b'"' + value + b'"'
+        head = tag + b': '
+        parts = _chunks(value, n, 71 - len(head))
+        if parts is None or len(parts) != n:
+            return None, None
+        for i, c in enumerate(parts):
+            lines.append((head if i == 0 else b'') + c +
+                         (b'\\' if i < n - 1 else b''))
+    if row['blank']:
+        lines.append(b'')
+    b64 = binascii.b2a_base64(blob)[:-1]
+    w = row['width']
+    lines += [b64[i:i + w] for i in range(0, len(b64), w)]
+    lines.append(b'---- END SSH2 PUBLIC KEY ----')
+    data = eol.join(l + tws for l in lines)
+    if row['finalnl']:
+        data += eol
+    return data, expect
+
+
+def pem_layout(der, pem_type, row, headers=b''):
+    """A PEM file around `der`.  row: eol, width (0 = one line), lead (text
+    before BEGIN), trail (text after END), trailws, finalnl."""
+    eol = b'\r\n' if row['eol'] == 'crlf' else b'\n'
+    tws = b'  ' if row['trailws'] else b''
+    b64 = binascii.b2a_base64(der)[:-1]
+    w = row['width'] or len(b64)
+    lines = []
+    if row['lead']:
+        lines += [b'Bag Attributes', b'    friendlyName: verif key',
+                  b'    localKeyID: 01 02 03', b'Key Attributes: <No Attributes>']
+    lines.append(b'-----BEGIN ' + pem_type + b'-----')
+    lines += [b64[i:i + w] for i in range(0, len(b64), w)]
+    lines.append(b'-----END ' + pem_type + b'-----')
+    if row['trail']:
+        lines += [b'', b'some text after the key']
+    data = eol.join(l + tws for l in lines)
+    if row['finalnl']:
+        data += eol
+    return data
+
+
+def openssh_pub_layout(alg, blob, row):
+    """A one-line OpenSSH public key.  row: sep, comment ('none' | 'plain' |
+    'spaces'), opts, leadws, trailws, eol, finalnl.
+    -> (bytes, expected comment)"""
+    sep = {'space': b' ', 'spaces': b'   ', 'tab': b'\t',
+           'mixed': b' \t '}[row['sep']]
+    cm = {'none': None, 'plain': b'user@host',
+          'spaces': b'my  key (with   spaces)\tand a tab'}[row['comment']]
+    line = alg + sep + binascii.b2a_base64(blob)[:-1]
+    if cm is not None:
+        line += sep + cm
+    if row['opts']:
+        line = b'command="echo hi there",no-pty,from="10.*"' + sep + line
+    if row['leadws']:
+        line = b'  ' + line
+    if row['trailws']:
+        line += b' \t'
+    if row['finalnl']:
+        line += b'\r\n' if row['eol'] == 'crlf' else b'\n'
+    return line, cm
